@@ -128,7 +128,7 @@ class Driver:
         pre = None
         if a not in model.cell_map:
             pre = self.actor.call(outcome_of, lambda: (model.evaluate(a), None)[1])
-            if 'exc' in pre:
+            if 'exc' in pre and a not in model.cell_map:
                 pre['during'] = 'touch'
                 return pre
         return self.actor.call(outcome_of, lambda: model.set_value(a, v))
